@@ -121,7 +121,8 @@ class SolverWrapper:
         self.time_limit = kwargs.get("time_limit", SolverWrapper.time_limit)
         self.use_also_custom_timeout = kwargs.get("use_also_custom_timeout", SolverWrapper.use_also_custom_timeout)
         self.tolerance = kwargs.get("tolerance", SolverWrapper.tolerance)  # Default tolerance value
-        if self.tolerance < 1e-9:
+        # (written so that NaN, for which every comparison is False, is rejected as well)
+        if not (self.tolerance >= 1e-9):
             utils.logger.error(f"{__name__}: The tolerance value must be >=1e-9.")
             raise ValueError("The tolerance value must be >=1e-9.")
         
